@@ -1,10 +1,185 @@
-import Martian.Util
-/-! STUB — property C13 is not built yet. -/
+import Martian.Model.Verify
+/-! Line-protocol driver of the C13 model (see go/internal/c13/c13.go for the op grammar). -/
 namespace Martian.Drv.C13
-open Martian
+open Martian Martian.Go Martian.Verify
 
-abbrev St := Unit
-def init : St := ()
-def step (s : St) (_toks : List String) : St × String := (s, "bad-op")
+structure St where
+  s : State
+  oom : Bool
+
+def init : St := ⟨⟨.nop, .nop⟩, false⟩
+
+/-! domain guards -/
+def isAlnum (c : UInt8) : Bool := (48 ≤ c && c ≤ 57) || (65 ≤ c && c ≤ 90) || (97 ≤ c && c ≤ 122)
+def safeChar (c : UInt8) : Bool := isAlnum c || c == 45 || c == 46 || c == 95 || c == 126 || c == 47
+def safe (b : Bytes) : Bool := b.all safeChar
+def safeQ (b : Bytes) : Bool := b.all fun c => safeChar c || c == 61 || c == 38
+def printable (b : Bytes) : Bool := b.all fun c => 32 ≤ c && c < 127
+
+def canonName (b : Bytes) : Bool :=
+  let rec go (up : Bool) : Bytes → Bool
+    | [] => true
+    | c :: r =>
+      if c == 45 then go true r
+      else if !isAlnum c then false
+      else if up then (!(97 ≤ c && c ≤ 122)) && go false r
+      else (!(65 ≤ c && c ≤ 90)) && go false r
+  b ≠ [] && go true b &&
+    b ≠ strBytes "Host" && b ≠ strBytes "Content-Length" && b ≠ strBytes "Transfer-Encoding"
+
+def okUrl (s h p q : Bytes) : Bool := safe s && safe h && safe p && safeQ q
+
+def kindOk : Kind → Bool
+  | .status _ => true
+  | .header n v => canonName n && printable v
+  | .method m => printable m
+  | .url s h p q => okUrl s h p q
+  | .qs k v => safe k && safe v
+  | .failure _ => true
+
+def condOk : Cond → Bool
+  | .header n v => canonName n && printable v
+  | .url s h p q => okUrl s h p q
+  | .method m => printable m
+
+def hdrOk (h : Hdr) : Bool := h.all fun e => canonName e.1 && e.2.all printable
+
+def msgOk (m : Msg) : Bool :=
+  printable m.method && m.scheme ≠ [] && m.host ≠ [] && okUrl m.scheme m.host m.path m.query && safe m.frag &&
+  (m.path = [] || m.path.head? == some 47) && hdrOk m.reqH && hdrOk m.resH
+
+def parseScope : String → Option Scope
+  | "d" => some ⟨false, false, false⟩
+  | "e" => some ⟨true, false, false⟩
+  | "q" => some ⟨true, true, false⟩
+  | "s" => some ⟨true, false, true⟩
+  | "b" => some ⟨true, true, true⟩
+  | _ => none
+
+def parseBool : String → Option Bool
+  | "0" => some false
+  | "1" => some true
+  | _ => none
+
+def parseCond : List String → Option (Cond × List String)
+  | "header" :: n :: v :: r => do some (.header (← unhex n) (← unhex v), r)
+  | "url" :: s :: h :: p :: q :: r => do some (.url (← unhex s) (← unhex h) (← unhex p) (← unhex q), r)
+  | "method" :: m :: r => do some (.method (← unhex m), r)
+  | _ => none
+
+def parseLeaf : List String → Option (Leaf × List String)
+  | "status" :: c :: r => do some (.ver (.status (← c.toNat?)), r)
+  | "header" :: n :: v :: r => do some (.ver (.header (← unhex n) (← unhex v)), r)
+  | "method" :: m :: r => do some (.ver (.method (← unhex m)), r)
+  | "url" :: s :: h :: p :: q :: r => do some (.ver (.url (← unhex s) (← unhex h) (← unhex p) (← unhex q)), r)
+  | "qs" :: k :: v :: r => do some (.ver (.qs (← unhex k) (← unhex v)), r)
+  | "failure" :: m :: r => do some (.ver (.failure (← unhex m)), r)
+  | "ping" :: s :: h :: p :: q :: r => do some (.ping (← unhex s) (← unhex h) (← unhex p) (← unhex q), r)
+  | "nop" :: r => some (.nop, r)
+  | "fail" :: r => some (.fail, r)
+  | _ => none
+
+mutual
+def parseNode : Nat → List String → Option (Cfg × List String)
+  | 0, _ => none
+  | _ + 1, "L" :: sc :: r => do
+    let sc ← parseScope sc
+    let (l, r) ← parseLeaf r
+    some (.leaf l sc, r)
+  | fuel + 1, "G" :: sc :: agg :: n :: r => do
+    let sc ← parseScope sc
+    let agg ← parseBool agg
+    let n ← n.toNat?
+    let (ms, r) ← parseList fuel n r
+    some (.group agg sc ms, r)
+  | fuel + 1, "F" :: sc :: r => do
+    let sc ← parseScope sc
+    let (c, r) ← parseCond r
+    match r with
+    | he :: r =>
+      let he ← parseBool he
+      let (t, r) ← parseNode fuel r
+      if he then
+        let (f, r) ← parseNode fuel r
+        some (.filter c sc t f, r)
+      else some (.filter c sc t .absent, r)
+    | [] => none
+  | _, _ => none
+def parseList : Nat → Nat → List String → Option (CfgL × List String)
+  | 0, _, _ => none
+  | _ + 1, 0, r => some (.nil, r)
+  | fuel + 1, n + 1, r => do
+    let (c, r) ← parseNode fuel r
+    let (l, r) ← parseList fuel n r
+    some (.cons c l, r)
+end
+
+mutual
+def cfgOk : Cfg → Bool
+  | .leaf (.ver k) _ => kindOk k
+  | .leaf (.ping s h p q) _ => okUrl s h p q
+  | .leaf _ _ => true
+  | .group _ _ ms => cfgLOk ms
+  | .filter c _ t f => condOk c && cfgOk t && cfgOk f
+  | .absent => true
+def cfgLOk : CfgL → Bool
+  | .nil => true
+  | .cons c l => cfgOk c && cfgLOk l
+end
+
+def parseHdr (s : String) : Option Hdr :=
+  if s = "-" then some [] else
+  (s.splitOn ";").mapM fun e =>
+    match e.splitOn ":" with
+    | [n, vs] => do
+      let n ← unhex n
+      let vs ← if vs = "" then some [] else (vs.splitOn ",").mapM unhex
+      some (n, vs)
+    | _ => none
+
+def parseMsg : List String → Option Msg
+  | [api, me, s, h, p, q, f, rh, st, sh] => do
+    some { api := ← parseBool api, method := ← unhex me, scheme := ← unhex s, host := ← unhex h, path := ← unhex p,
+           query := ← unhex q, frag := ← unhex f, reqH := ← parseHdr rh, status := ← st.toNat?, resH := ← parseHdr sh }
+  | _ => none
+
+def b2s (b : Bool) : String := if b then "1" else "0"
+
+def showQuery (l : List Bytes) : String :=
+  " ".intercalate (s!"q {l.length}" :: l.map hex)
+
+def step (st : St) (toks : List String) : St × String :=
+  match toks with
+  | "tree" :: _wiring :: rest =>
+    match parseNode (rest.length + 1) rest with
+    | some (cfg, []) =>
+      if !cfgOk cfg then (⟨st.s, true⟩, "out-of-model")
+      else match cfg.install with
+        | some s => (⟨s, false⟩, "tree ok")
+        | none => (⟨st.s, st.oom⟩, "tree err")
+    | _ => (st, "bad-op")
+  | "urlstr" :: [s, h, p, q, f] =>
+    match unhex s, unhex h, unhex p, unhex q, unhex f with
+    | some s, some h, some p, some q, some f =>
+      if okUrl s h p q && safe f then (st, "urlstr " ++ hex (urlString s h p q f)) else (st, "out-of-model")
+    | _, _, _, _, _ => (st, "bad-op")
+  | _ =>
+  if st.oom then (st, "out-of-model") else
+  match toks with
+  | "t" :: rest =>
+    match parseMsg rest with
+    | some m =>
+      if !msgOk m then (⟨st.s, true⟩, "out-of-model")
+      else
+        let rq := st.s.req.modify .req m
+        let rs := st.s.res.modify .res m
+        (⟨⟨rq.1, rs.1⟩, false⟩, s!"t {b2s rq.2} {b2s rs.2}")
+    | none => (st, "bad-op")
+  | ["q"] => (st, showQuery st.s.query)
+  | ["r"] => (⟨st.s.reset, false⟩, "r 204")
+  | ["qbad"] => (st, "qbad 405")
+  | ["rbad"] => (st, "rbad 405")
+  | "conc" :: _ => (⟨st.s.reset, false⟩, "conc")
+  | _ => (st, "bad-op")
 
 end Martian.Drv.C13
